@@ -118,14 +118,14 @@ def parse_vspec(path):
                 else:
                     raise SpecError(f'{path}:{i+1}: bad token {rest[k]}')
             u.parts.append(('item', it)); cur_item = it; i += 1
-        elif d in ('@sig', '@loop', '@loopend', '@before', '@after', '@closure', '@closure?', '@ret', '@tail', '@head', '@drop', '@split_or_arm', '@idiom', '@dropstmt', '@relift', '@tryforeach', '@attr'):
+        elif d in ('@sig', '@loop', '@loopend', '@before', '@after', '@closure', '@closure?', '@ret', '@tail', '@head', '@drop', '@split_or_arm', '@idiom', '@dropstmt', '@relift', '@tryforeach', '@attr', '@hoist', '@loophead'):
             if cur_item is None: raise SpecError(f'{path}:{i+1}: {d} outside @item')
             a = Ann(kind=d[1:].rstrip('?'), line=i + 1)
             if d.endswith('?'): a.opts['optional'] = '1'   # anchor may be absent (code before/after a fix)
             rest = ln[len(d):].strip()
             if d == '@ret':
                 a.arg = rest; i += 1
-            elif d in ('@loop', '@loopend', '@tryforeach'):
+            elif d in ('@loop', '@loopend', '@tryforeach', '@loophead'):
                 ps = rest.split()
                 a.arg = ps[0]
                 for p in ps[1:]:
@@ -141,6 +141,11 @@ def parse_vspec(path):
                     i += 1
                 else:
                     a.text, i = take_block(i + 1)
+            elif d == '@hoist':
+                # R20: `@hoist <<enum Name>>` moves a fn-local item in front of the fn
+                m = re.match(r'<<\s*(enum|struct)\s+(\w+)\s*>>\s*$', rest)
+                if not m: raise SpecError(f'{path}:{i+1}: @hoist needs <<enum|struct Name>>')
+                a.arg, a.arg2 = m.group(1), m.group(2); i += 1
             elif d in ('@closure', '@closure?', '@idiom', '@relift'):
                 # optional third part `<<let PAT = p;>>` (or `bind <<let PAT = p;>>`) = destructuring of the renamed closure
                 # parameter, inserted as the first statement of the closure body (Verus: closure params must be plain variables)
@@ -291,7 +296,7 @@ class Text:
         pos = self.start
         for s, e, r in sorted(self.edits, key=lambda x: (x[0], x[1])):
             if s < pos:
-                if e <= pos and not r:
+                if e <= pos and (not r or (s, e) in getattr(self, 'subsumed', ())):
                     continue
                 raise SpecError(f'overlapping edits in {self.rel} at byte {s}')
             out.append(self.src[pos:s]); out.append(r); pos = e
@@ -522,6 +527,81 @@ def apply_fx(tx, ct, lo, hi, fxname, fxcalls, inserts, mk, bare=False):
                            'note': f'effect state `{fxname}` passed explicitly'})
 
 
+def apply_refpat(tx, ct, lo, hi, inserts, mk):
+    """R18: `for (&x, y) in E { B }`  ==>  `for (__ref_x, y) in E { let x = *__ref_x; B }` (also `for &x in E`).
+    Verus rejects reference patterns ("ref patterns").  Same semantics: `&x` binds a copy of the referent
+    (the pattern only type-checks for Copy referents)."""
+    for kw, ob in find_loops(tx, lo, hi):
+        if ct[kw].text != 'for':
+            continue
+        j = kw + 1
+        while not (ct[j].kind == 'id' and ct[j].text == 'in'):
+            j += 1
+        names = []
+        for k in range(kw + 1, j - 1):
+            if (ct[k].kind == 'punct' and ct[k].text == '&' and ct[k + 1].kind == 'id' and ct[k + 1].text != 'mut'
+                    and ct[k - 1].text in ('(', ',', 'for') and ct[k + 2].text in (',', ')', 'in')):
+                n = ct[k + 1].text
+                tx.edit(ct[k].start, ct[k + 1].end, '__ref_' + n, 'R18', f'reference pattern &{n} bound by reference, dereferenced in the body')
+                names.append(n)
+        if names:
+            inserts.append(mk(ct[ob].end, ''.join(f' let {n} = *__ref_{n};' for n in names)))
+
+
+def apply_tls_inline(tx, ct, lo, hi, fxcalls, inserts, mk):
+    """R19 (scoped thread-local made explicit): `World::enter(&W, || BODY)` ==> `{ BODY' }` where, inside BODY,
+    every call `.NAME(ARGS)` with NAME in fxcalls gets `&mut W` appended and `World::current(|x| B)` becomes
+    `{ let x = W.borrow_mut(); B }`.  World::enter is `CURRENT.set(world, f)`: it installs &W as the scoped thread-local for
+    the duration of f() and returns f's result; World::current(g) is `g(&mut CURRENT.borrow_mut())`.  Verus rejects closures
+    that capture `&mut` state, and has no thread-locals: callees that reach the world through CURRENT get it as an explicit
+    parameter (the same idea as R13).  BODY must not contain `return`/`?` at closure level (they would change meaning)."""
+    k = lo
+    n_done = 0
+    while k < hi:
+        if (ct[k].text == 'World' and ct[k + 1].text == ':' and ct[k + 2].text == ':' and ct[k + 3].text == 'enter'
+                and ct[k + 4].text == '(' and ct[k + 5].text == '&'):
+            close = rl.match_close(ct, k + 4)
+            c = k + 6
+            while ct[c].text != ',':
+                if ct[c].text in rl.OPEN: c = rl.match_close(ct, c)
+                c += 1
+            W = tx.src[ct[k + 6].start:ct[c - 1].end]
+            if not (ct[c + 1].text == '|' and ct[c + 2].text == '|'):
+                raise SpecError(f'UNSUPPORTED: {tx.rel}: World::enter argument is not a `|| BODY` closure')
+            b0 = c + 3
+            for q in range(b0, close):
+                # a postfix `?` operator follows an expression; `= ?x` inside a tracing macro is field syntax
+                if (ct[q].kind == 'id' and ct[q].text == 'return') or (ct[q].text == '?' and (ct[q - 1].kind in ('id', 'num') or ct[q - 1].text in (')', ']', '}'))):
+                    raise SpecError(f'UNSUPPORTED: {tx.rel}: World::enter closure contains return/?; R19 not applicable')
+            tx.edit(ct[k].start, ct[b0].start, '{ ', 'R19', f'World::enter(&{W}, || BODY) inlined: scoped thread-local made explicit')
+            tx.edit(ct[close].start, ct[close].end, ' }', 'R19', 'end of inlined World::enter scope')
+            q = b0
+            while q < close:
+                t = ct[q]
+                if (t.text == 'World' and ct[q + 1].text == ':' and ct[q + 2].text == ':' and ct[q + 3].text == 'current'
+                        and ct[q + 4].text == '(' and ct[q + 5].text == '|' and ct[q + 6].kind == 'id' and ct[q + 7].text == '|'):
+                    c2 = rl.match_close(ct, q + 4)
+                    x = ct[q + 6].text
+                    tx.edit(t.start, ct[q + 7].end, f'{{ let {x} = {W}.borrow_mut();', 'R19', f'World::current(|{x}| B) inside the entered scope reads {W}')
+                    tx.edit(ct[c2].start, ct[c2].end, ' }', 'R19', 'end of inlined World::current closure')
+                    q += 8; continue
+                # an entry `recv.name` only matches calls on that receiver identifier
+                if (t.kind == 'id' and ct[q + 1].text == '(' and ct[q - 1].text == '.'
+                        and (t.text in fxcalls or (ct[q - 2].kind == 'id' and f'{ct[q - 2].text}.{t.text}' in fxcalls))):
+                    cl = rl.match_close(ct, q + 1)
+                    # no comma needed only if the call has no argument and no earlier rule (R13) already appended one
+                    empty = cl == q + 2 and not any(ins[0] == ct[cl].start for ins in inserts)
+                    inserts.append(mk(ct[cl].start, (f'&mut {W}' if empty else f', &mut {W}')))
+                    tx.log.append({'rule': 'R19', 'at': f'{tx.rel}:{rl.line_of(tx.src, t.start)}', 'text': t.text + '(..)',
+                                   'note': f'callee reaches the world through the thread-local: `&mut {W}` passed explicitly'})
+                q += 1
+            n_done += 1
+            k = close + 1; continue
+        k += 1
+    if n_done == 0:
+        raise SpecError(f'LOST-ANCHOR: {tx.rel}: tls= given but no World::enter(&W, || ..) found')
+
+
 def label_lines(text, labels, base_line, region):
     """Replace [Cxx.label] markers by comments and record label -> line range within text."""
     out_lines = []
@@ -646,7 +726,10 @@ class Gen:
             fkey = it.as_name
         region = f'{u.name}.{fkey}'
         pending_inserts = []   # (byte_pos, text, tag)
+        hoisted = []
         split_anns = []
+        # R18 first: its `let x = *__ref_x;` must precede annotation text anchored at the same loop-body start
+        apply_refpat(tx, ct, fp['bopen'] + 1, fp['bclose'], pending_inserts, lambda pos, text: (pos, text, 'R18'))
         for a in it.anns:
             if a.kind == 'ret':
                 if fp['arrow'] is None:
@@ -765,6 +848,16 @@ class Gen:
                         j += 1
                     pending_inserts.append((ct[j].end, f' {a.opts["binder"]}:', 'binder'))
                 pending_inserts.append((ct[ob].start, '\n' + a.text.rstrip() + '\n', 'loop'))
+            elif a.kind == 'loophead':
+                # text inserted at the start of loop n's body (ghost snapshots, `broadcast use`, proof hints that must hold
+                # on every path incl. `continue`/`break`).  With desugar=next put @loophead BEFORE the @loop line in the
+                # sidecar so that it lands in front of the generated `match __it.next()`.
+                loops = find_loops(tx, fp['bopen'] + 1, fp['bclose'])
+                n = int(a.arg)
+                if n < 1 or n > len(loops):
+                    raise SpecError(f'LOST-ANCHOR: {region}: loop {n} not found ({len(loops)} loops)')
+                kw, ob = loops[n - 1]
+                pending_inserts.append((ct[ob].end, '\n' + a.text.rstrip() + '\n', 'loophead'))
             elif a.kind == 'loopend':
                 loops = find_loops(tx, fp['bopen'] + 1, fp['bclose'])
                 n = int(a.arg)
@@ -876,6 +969,18 @@ class Gen:
                 self.apply_dropstmt(tx, a, region)
             elif a.kind == 'idiom':
                 self.apply_idiom(tx, a, region)
+            elif a.kind == 'hoist':
+                # R20: Verus rejects items declared inside a fn body ("internal item statements").  A fn-local enum/struct
+                # that captures nothing (items cannot capture) means the same at module level; only its scope widens.
+                hit = [j for j in range(fp['bopen'], fp['bclose'])
+                       if ct[j].kind == 'id' and ct[j].text == a.arg and ct[j + 1].text == a.arg2]
+                if len(hit) != 1:
+                    raise SpecError(f'LOST-ANCHOR: {region}: @hoist <<{a.arg} {a.arg2}>> found {len(hit)} times')
+                j = hit[0]; ob_ = j + 2
+                while ct[ob_].text != '{': ob_ += 1
+                cb_ = rl.match_close(ct, ob_)
+                hoisted.append(src[ct[j].start:ct[cb_].end])
+                tx.edit(ct[j].start, ct[cb_].end, '', 'R20', f'fn-local item `{a.arg} {a.arg2}` hoisted in front of the fn')
             elif a.kind == 'relift':
                 self.apply_relift(tx, a, region)
             elif a.kind == 'split_or_arm':
@@ -916,6 +1021,10 @@ class Gen:
             tx.log.append({'rule': 'R13', 'at': f'{it.file}:{l0}', 'text': item.name, 'note': f'effect-state parameter `{fxname}: &mut {fxty}` added'})
             apply_fx(tx, ct, fp['bopen'], body_hi, fxname, it.opts.get('fxcalls', '').split(','), pending_inserts,
                      lambda pos, text: (pos, text, 'R13'), bare=bool(it.opts.get('fxbare')))
+        if it.opts.get('tls'):
+            # tls=recv.name,name2 (or tls=-): R19 on every World::enter(&W, || BODY) of the fn
+            apply_tls_inline(tx, ct, fp['bopen'], fp['bclose'], [x for x in it.opts['tls'].split(',') if x and x != '-'],
+                             pending_inserts, lambda pos, text: (pos, text, 'R19'))
         if it.opts.get('inherent') and imp is not None and imp.trait_name:
             # the method gets an extra parameter (fx), so it can no longer be emitted inside the trait impl
             imp_header = re.sub(r'\b%s\s+for\s+' % re.escape(imp.trait_name), '', imp_header)
@@ -942,6 +1051,8 @@ class Gen:
             for lg in t2.log:
                 lg['at'] = f'{it.file}:{l0}-{l1}'
             tx.log += t2.log
+        for h_ in hoisted:
+            self.emit(h_.rstrip('\n') + '\n')
         self.emit(header)
         if imp is not None:
             self.emit(f'impl {imp_header} {{\n')
@@ -1115,6 +1226,9 @@ class Gen:
         if cnt != 1:
             raise SpecError(f'LOST-ANCHOR: {tx.rel}: @drop anchor <<{a.arg}>> occurs {cnt} times')
         pos = tx.start + s_all.index(a.arg)
+        # automatic edits (R2 tracing replacement) lying inside a declared drop are subsumed by it
+        if not hasattr(tx, 'subsumed'): tx.subsumed = set()
+        tx.subsumed |= {(s_, e_) for (s_, e_, _r) in tx.edits if pos <= s_ and e_ <= pos + len(a.arg)}
         tx.edit(pos, pos + len(a.arg), '', 'R2x', 'declared drop')
 
     def emit_lift(self, it: ItemSpec):
